@@ -322,6 +322,19 @@ Definition writer_unfixed := aw_writer_run false.
 Definition hdr_ok (e : aentry) : Prop :=
   parse (hdr (ae_meta e)) = Some (ae_meta e) /\ ~ In ANL (hdr (ae_meta e)).
 
+(* the same as a boolean, so that the correspondence run can evaluate it on the header
+   strings the real encoder (marshalSourceFile + zlib + base64) produced and on what the real
+   decoder (base64 + zlib + unmarshalSourceFile) made of them: [hdr] and [parse] are then the
+   two tables of real results.  Nothing bounds the ratio length (json) / length (hdr m):
+   the hypothesis covers headers that compress arbitrarily well. *)
+Definition ameta_eqb (a b : ameta) : bool :=
+  apath_eqb (am_path a) (am_path b) && Bool.eqb (am_dir a) (am_dir b) && (am_size a =? am_size b)%Z.
+Definition ahdr_okb (e : aentry) : bool :=
+  match parse (hdr (ae_meta e)) with
+  | Some m => ameta_eqb m (ae_meta e)
+  | None => false
+  end && negb (existsb (N.eqb ANL) (hdr (ae_meta e))).
+
 Definition aw_state_of (r : awall) : option awstate :=
   match r with AwDone st => Some st | AwFail _ st => Some st | AwFuel => None end.
 
